@@ -4,6 +4,9 @@ import json, os
 here = os.path.dirname(os.path.dirname(os.path.abspath(__file__)))
 TECH = "deterministic simulation with fault injection"
 claimed = {
+ "C06": ("exploration", "seeded search over inputs with many duplicate chunks, worker counts, interleavings and store-failure sequences (k-th HasChunk/StoreChunk/GetChunk failing or slow, up to three per run) of the real ChopFile, Copy, ChunkStream and make pipeline; oracle: success implies a complete, valid target store and a correct index, and any failure returned to desync implies an error result",
+         "sampling; failures are injected at store-call granularity; the CLI wrappers around these library calls are not executed",
+         TECH + " (seeded scheduler, k-th-call store faults, store-content oracle)"),
  "C07": ("exploration", "for each long-running library entry point a seeded schedule is recorded and then re-run with the context cancelled before every scheduling decision (exhaustive over the cancellation points of that schedule when it has <= 150 steps, sampled otherwise); oracle: a nil result implies the work is complete, the call returns and does not panic",
          "sampling over workloads and schedules, exhaustive over cancellation points of each short recorded schedule; CLI signal handling is represented by cancelling the root context; process-level signalling of the real binary is not part of this check",
          TECH + " (seeded scheduler, cancellation-point enumeration, completeness oracle)"),
